@@ -26,8 +26,18 @@ func Tok(s model.Sym) ion.SymbolToken {
 	if !s.Known {
 		return ion.SymbolToken{LocalSID: 0}
 	}
+	if ForeignSID != nil {
+		// a token as a Reader over some other stream would hand it out: the text
+		// together with the ID it had there
+		text := s.Text
+		return ion.SymbolToken{Text: &text, LocalSID: ForeignSID(text)}
+	}
 	return ion.NewSymbolTokenFromString(s.Text)
 }
+
+// ForeignSID, when set, makes Tok attach a symbol ID from an unrelated table to
+// every token that has text (the text is what a writer must go by).
+var ForeignSID func(text string) int64
 
 // IonTS converts a model timestamp to an ion.Timestamp through public constructors.
 func IonTS(t model.TS) ion.Timestamp {
